@@ -14,6 +14,11 @@ CLAIMED = {
          "Static, exhaustive decision of C13's table clauses: closure of every DR reference, latest/latest fallback completeness and fallback keys, M=N+8, N<=242, repeater<=non-repeater, SF-monotonicity per bandwidth and direction, DR-definition injectivity per direction, default channels/RX2/DR definitions/TX-power step = oracle. Max-payload numeric values per RP revision are not compared (relations only).",
          "Trusts go/types constant evaluation, internal/tables evaluator, spec/regional.json.",
          "DESIGN.md §3 C13"),
+
+ "C20": ("literal-table evaluation of the leap-second / GPS-epoch / EIRP tables against a transcribed oracle, loop index-coverage rule on the two GPS conversions, SSA dominating-guard rule on the EIRP decode, SSA div-before-mul rule in package airtime",
+         "Static decision of C20's table clauses (18 leap seconds, epoch, 16 EIRP codes, ordering) plus three structural necessary conditions of its conversion clauses (every table entry consulted; decode index guarded; no scaled-up truncated quotient in airtime). Round-trip/monotonicity of the conversions, the float airtime formula and sensitivity numerics are runtime-value behaviour and are not decided.",
+         "Trusts go/types, go/ssa, package time, spec/time.json.",
+         "DESIGN.md §3 C20"),
 }
 
 NOT_APPLICABLE = {
